@@ -67,6 +67,11 @@ def main():
                     continue
                 rate = rng.choice((4000, 4000, 8000, 11025))
                 cases.append((m, rate, fmt, rng.randrange(40, 160), None))
+        # long frames: at 44100 / 48000 Hz a tempo factor of 6.5 .. 12 makes a tick longer than 6146 sample frames, i.e. a 16-bit stereo
+        # frame larger than XMP_MAX_FRAMESIZE BYTES (the constant bounds sample frames x 2, not bytes): nothing of it may be dropped
+        for m in mods[:2]:
+            for rate, fmt in ((44100, 0), (48000, 0), (48000, 4)):
+                cases.append((m, rate, fmt, rng.randrange(12, 24), None))
     ndis = 0
     opsum = {"P": 0, "R": 0, "S": 0, "E": 0, "T": 0}
     endhits = 0
@@ -96,7 +101,7 @@ def main():
                 # number of frames (the buffered context renders a frame only when it needs its bytes, so that number is determined by
                 # the bytes delivered plus the carry-over).
                 if fixed_ops is None:
-                    cut = rng.randrange(1, max(2, min(len(ops), 10))); fac = rng.choice(("1.37", "0.61", "2.0", "0.5", "1.01"))
+                    cut = rng.randrange(1, max(2, min(len(ops), 10))); fac = rng.choice(("1.37", "0.61", "2.0", "0.5", "1.01")) if rate < 44100 else rng.choice(("8.0", "6.5", "12.0" if rate == 48000 else "8.5"))
                     ops = [o for o in ops[:cut] if o[0] == "P"] + [("T", fac)] + [o for o in ops[cut:cut + 30] if o[0] == "P"]
                 ti = next(i for i, o in enumerate(ops) if o[0] == "T"); fac = ops[ti][1]
                 pre = ops[:ti]
